@@ -103,7 +103,7 @@ socket_path = "{d}/sneldb.sock"
 log_level = "error"
 output_format = "json"
 tcp_addr = "127.0.0.1:{port}"
-http_addr = "127.0.0.1:0"
+http_addr = "127.0.0.1:{hport}"
 ws_addr = "127.0.0.1:0"
 auth_token = "tok"
 backpressure_threshold = 100
@@ -138,6 +138,7 @@ use_calendar_bucketing = true
             mip = self.max_inflight_passives,
             spm = self.segments_per_merge,
             port = self.tcp_port,
+            hport = if self.tcp_port == 0 { 0 } else { self.tcp_port + 1 },
             auth = auth,
             sbs = self.streaming_batch_size,
             tz = self.timezone,
